@@ -68,6 +68,24 @@ def values(name, G, T, seed=0):
             nz = _noise(733 * seed + 29 * g + 11, T, 0, 14 + 3 * g)
             drift = [(d * (g % 3)) // 2 for d in range(T)]
             out[g] = [float((3 - g % 2) * common[d] + nz[d] + drift[d]) for d in range(T)]
+    elif name == 'V':    # VERDICT-diverse: geos with a level shift, a slow wave, a late break and heavy noise, so that designs fail
+        # DIFFERENT subsets of the four diagnostic tests (flag tuples whose lexicographic order differs from their pass count)
+        steps = _noise(59 + 5 * seed, T, -2, 3)
+        common, c = [], 30
+        for d in range(T):
+            c = max(6, c + steps[d])
+            common.append(c)
+        for g in range(G):
+            nz = _noise(389 * seed + 23 * g + 7, T, 0, 3 + 4 * (g % 3))
+            kind = (g + seed) % 4
+            extra = [0] * T
+            if kind == 0:
+                extra = [18 if d >= T // 2 else 0 for d in range(T)]                    # level shift
+            elif kind == 1:
+                extra = [int(9 * ((d // 3) % 2)) for d in range(T)]                     # slow square wave (autocorrelated)
+            elif kind == 2:
+                extra = [14 if d >= T - 4 else 0 for d in range(T)]                     # late break (inside the A/A window)
+            out[g] = [float((2 + g % 2) * common[d] + nz[d] + extra[d]) for d in range(T)]
     elif name == 'C':    # seed-derived panel (VERIF_SEED != 0): random walk with random weights
         ws = _noise(seed + 3, G, 1, 9)
         steps = _noise(seed + 11, T, -4, 5)
